@@ -250,7 +250,7 @@ int main(int argc, char** argv) {
             for (auto& e : extra) f.push_back(e);
             ctx.fail(where + " " + kind, where + ": " + msg, f);
           };
-          // Math::tauf converges only linearly for prolate ellipsoids (known finding): Reverse results on f < 0 carry the field tauf=prolate-reverse
+          // Math::tauf converged only linearly for prolate ellipsoids (defect found by this check, repaired in /repo, kept as a recognised class): Reverse results on f < 0 carry the field tauf=prolate-reverse
           // when the position error is below the gross bound 4 a (2.2 |e^2|)^6 (the size that defect can produce); anything larger is reported plainly
           const ld tauf_gross = 4 * G.a * powl(2.2L * fabsl(G.e2), 6);
           auto PRO = [&](ld err_ground) -> mc::Fields { if (P.f < 0 && err_ground <= tauf_gross) return {{"tauf", "prolate-reverse"}}; return {}; };
